@@ -116,13 +116,23 @@ func load(o loadOpts) (*Prog, error) {
 		}
 		return nil, fmt.Errorf("load/type errors: %s", strings.Join(errs, "; "))
 	}
+	// with Tests:true a package appears twice (plain and "[pkg.test]" variant, the latter a superset): keep one per path
+	best := map[string]*packages.Package{}
 	for _, pk := range pkgs {
-		if !strings.HasPrefix(pk.PkgPath, modPath) {
+		if !strings.HasPrefix(pk.PkgPath, modPath) || strings.HasSuffix(pk.ID, ".test") {
 			continue
 		}
-		if strings.HasSuffix(pk.ID, ".test") {
+		// keep the plain package: the "[pkg.test]" variant has distinct type objects that other packages do not import,
+		// which would break cross-package resolution; in-package _test.go files are therefore not analysed.
+		if old, ok := best[pk.PkgPath]; !ok || strings.Contains(old.ID, "[") && !strings.Contains(pk.ID, "[") {
+			best[pk.PkgPath] = pk
+		}
+	}
+	for _, pk := range pkgs {
+		if best[pk.PkgPath] != pk {
 			continue
 		}
+		p.ByPth[pk.PkgPath] = pk
 		p.Pkgs = append(p.Pkgs, pk)
 		if p.Fset == nil {
 			p.Fset = pk.Fset
